@@ -215,6 +215,16 @@ impl<'a> Tokenizer<'a> {
             }
             _ => ErrorCode::NumericDataError,
         })?;
+        // 22 octal digits hold 66 bits, the overflow check of lexical-core misses
+        // those which still have bit 63 set after wrapping (e.g. `#Q3777777777777777777777`)
+        if matches!(radix, b'Q' | b'q') {
+            let mut significant = self.chars.as_slice()[..len]
+                .iter()
+                .skip_while(|c| !matches!(**c, b'1'..=b'7'));
+            if significant.clone().count() == 22 && significant.next() > Some(&b'1') {
+                return Err(ErrorCode::DataOutOfRange);
+            }
+        }
         if len > 0 {
             self.chars.nth(len - 1).unwrap();
             let ret = Token::NonDecimalNumericProgramData(n);
